@@ -4,11 +4,13 @@ CONSTANTS
   Ops <- R_Ops
   Scheds = {"sync"}
   MaxDepth = 2
-  MaxRuns = 1
+  MaxRuns = 2
   MaxTasks = 12
   FftNeedsOneChunk = TRUE
   ChirpKeyByChannel = TRUE
   EagerOps <- None_
   NumpyOps <- None_
+  ReaderPerBlock = FALSE
+  OverwriteTags <- None_
 INVARIANT EmitLeaf
 CHECK_DEADLOCK FALSE
